@@ -120,7 +120,7 @@ CHECKS = {
         "level": "fault_enumeration",
         "rule": "rapid generates base histories (3-12 ops after an optional prologue; idle connections, outstanding subscribe/get/call requests, pending evictions with a 20 ms delay); for each base of n ops and each fault in {Stop(nil), loss of the messaging connection (closed handler invoked from its own goroutine)}, n+1 variants inject the fault before op k in a fresh gateway, followed by a WebSocket dial, an HTTP GET, Start, a new connection subscribing, and the final Stop; oracle: every client socket reads EOF in the fault's step, the stop channel delivers the cause (nil / the lost-connection error), the dial after the fault is not upgraded, the HTTP request gets 503, Stop returns (a Stop that has not returned after 30 s is a deadlock), nothing crashes (journal), no goroutine is left behind, and the restarted service serves the subscribe. After the restart a second fault (loss or Stop, alternating) strikes and the service is started once more: every fault cycle is held to the statement. A fifth of the cases listen on real loopback ports (API, and metrics in half of them): the ports refuse connections after every fault and accept them after every Start. Fault kind restart (Stop and Start in one step); Stop and loss also race the answers of outstanding calls. Non-trivial = a service request or client request was outstanding when the fault struck; distinct by variant script hash",
         "assumptions": A_SIM + ["base histories contain no HTTP request outstanding at the fault (the 3 s / 5 s shutdown constants cannot be shortened)", "TLS is not exercised; real listeners only in the fifth of the cases that listen on loopback"],
-        "parts": [sim(18, 250, qtimeout=300)],
+        "parts": [sim(18, 190, qtimeout=300)],
     },
     "C18": {
         "level": "exploration",
